@@ -815,6 +815,12 @@ class Sym:
                 if a is None or b is None:
                     return None
                 return a + b if mo.group(2) == "add" else a - b if mo.group(2) == "sub" else a * b
+            if s.endswith("::trailing_zeros") and len(t[2]) == 1:
+                nm = self.name(t)
+                m_ = __import__("re").search(r"impl u(\d+)>::trailing_zeros", t[1])
+                if m_:
+                    self.sym_box[nm] = (0, int(m_.group(1)))
+                return Poly.sym(nm)
             if s.endswith("::leading_zeros") and len(t[2]) == 1:
                 nm = self.name(t)
                 m_ = __import__("re").search(r"impl u(\d+)>::leading_zeros", t[1])
